@@ -1,9 +1,11 @@
 """C18 - node scheduler: wakes at every pending time; queries agree with the pending set."""
 import os
 from vlib import Case, Stream, BUILD, model_cmd
+import engine_common as ec
+import engine_plugin as ep
 
 ID = "C18"
-LEAN_MODULES = ["HgVerif.Props.C18"]
+LEAN_MODULES = ["HgVerif.Props.C18", "HgVerif.Model.Engine", "HgVerif.Model.Extracted"]
 THEOREMS = [
     "HgVerif.NodeSched.wf_ops", "HgVerif.NodeSched.wf_reachable", "HgVerif.NodeSched.tag_holds_one_time",
     "HgVerif.NodeSched.mem_schedule", "HgVerif.NodeSched.mem_unscheduleTag", "HgVerif.NodeSched.mem_unscheduleFirst",
@@ -18,7 +20,7 @@ THEOREMS = [
     "HgVerif.Tie.tie_nsStartedGuard", "HgVerif.Tie.tie_nsStartGuard", "HgVerif.Tie.tie_nsPushGuard",
     "HgVerif.Tie.tie_nsAdvanceGuard", "HgVerif.Tie.tie_slotConsumed", "HgVerif.Tie.tie_slotEarlier",
 ]
-CXX_TARGETS = ["hgv_nodesched"]
+CXX_TARGETS = ["hgv_nodesched", "hgv_engine"]
 USES_EXTRACT = True
 RULE = ("random operation sequences over NodeScheduler (times now-1..now+4, tags -,a,b,c, start and started views, "
         "cycles advancing now by 1-3); a case is non-trivial when it contains a tagged re-schedule, a cancel/pop of a "
@@ -74,7 +76,12 @@ def streams(rng, tier, seed):
     if os.path.isdir(cdir):
         for f in sorted(os.listdir(cdir)):
             corpus.append(Case([l.rstrip("\n") for l in open(os.path.join(cdir, f)) if l.strip()]))
-    return [Stream("nodesched", [os.path.join(BUILD, "hgv_nodesched")], model_cmd("C18"), corpus + cases)]
+    # in-graph stream: script nodes (one and several per graph, with and without inputs) issue the
+    # same operations through the injected NodeScheduler; the graph must wake them at every pending time
+    m = 150 if tier == "quick" else 4000
+    progs = [ec.gen_flat(rng, sched=True) for _ in range(m)]
+    return [Stream("nodesched", [os.path.join(BUILD, "hgv_nodesched")], model_cmd("C18"), corpus + cases),
+            ec.engine_stream("engine-sched", progs)]
 
 
 def _order(tag):
@@ -159,14 +166,33 @@ def _spec(case, out):
 
 
 def monitor(stream, case, out):
+    if stream.startswith("engine"):
+        dev, _ = ep.deviations(case, out)
+        return ["[%s] %s" % (c, m) for c, m in dev if c in ("times", "userrun")][:3]
     return _spec(case, out)[0][:3]
 
 
 def features(stream, case, out):
+    if stream.startswith("engine"):
+        return ep.features(stream, case, out)
     return sorted(_spec(case, out)[1])
 
 
+def alarm_filter(stream, case, impl_out, model_out):
+    if stream.startswith("engine"):
+        return ep.alarm_filter(stream, case, impl_out, model_out)
+    return True, []
+
+
+def valid_case(stream, case, impl_out, model_out):
+    if stream.startswith("engine"):
+        return ep.valid_case(stream, case, impl_out, model_out)
+    return True
+
+
 def nontrivial(stream, case, out):
+    if stream.startswith("engine"):
+        return ep.nontrivial(stream, case, out) and " q=" in ec.trace_of(out)
     f = _spec(case, out)[1]
     return bool(f & {"tag-replaced", "cancel-live-tag", "pop-live-tag", "advance-consumes"})
 
@@ -178,5 +204,4 @@ LEVEL_TEXT = ("Kernel-checked theorems over ALL operation sequences: representat
               "running the real header on generated op sequences.")
 LEVEL_NOTE = ("Trusted: Lean kernel; axioms propext/Classical.choice/Quot.sound; the hand-written model of "
               "NodeSchedulerState (std::set/map as lists) and of node.cpp's post-evaluation rule; the correspondence "
-              "harness. Assumes the graph honours an armed slot exactly (C02). The in-graph wake-up stream "
-              "is exercised by the engine driver (C02/C03 checks).")
+              "harness. Assumes the graph honours an armed slot exactly (C02). ")
